@@ -18,9 +18,11 @@ import (
 	"fmt"
 	"io"
 	"os"
+	"runtime"
 	"sort"
 	"strings"
 	"sync"
+	"sync/atomic"
 	"time"
 
 	"perkeep.org/pkg/blob"
@@ -28,6 +30,7 @@ import (
 	"perkeep.org/pkg/index"
 	"perkeep.org/pkg/sorted"
 	"perkeep.org/pkg/test"
+	"perkeep.org/pkg/types/camtypes"
 
 	"verifharness/hk"
 	"verifharness/props/c05"
@@ -59,6 +62,11 @@ type depsProgram struct {
 	Deliver [][]int // per client: the blob ids it delivers, in order
 	Omit    []int   // ids never delivered
 	YLevel  int32
+	// Late: a permanode that is the target of a delete claim and is delivered only after every other
+	// delivery has returned (0 = none): the delete claim is acknowledged and parked first, the permanode's
+	// arrival schedules its asynchronous re-indexing, and the queriers run through that window
+	Late     int
+	Queriers int // clients that run sorted permanode enumerations during the feed
 }
 
 // genDepsProgram builds a small world of dependent blobs and spreads it over the clients.
@@ -106,23 +114,34 @@ func genDepsProgram(r *hk.Rand) depsProgram {
 		add(&c05.Spec{Kind: "dir", Name: 40, SSet: ss})
 	}
 	var pns, claims []int
-	for i := 0; i < 1+r.Intn(2); i++ {
+	firstDelTarget := 0
+	for i := 0; i < 1+r.Intn(3); i++ {
 		pns = append(pns, add(&c05.Spec{Kind: "pn", Signer: key, Nonce: nonce + 100 + i}))
 	}
 	for i := 0; i < 2+r.Intn(3); i++ {
-		id := add(&c05.Spec{Kind: "claim", Signer: key, PN: pns[r.Intn(len(pns))], CType: "set", Attr: "i0", Val: fmt.Sprintf("s%d", i)})
-		specs[id-1].Date = int64(1000 + 10*id)
+		pn := pns[r.Intn(len(pns))]
+		if i < len(pns) {
+			pn = pns[i] // every permanode has a claim, hence a modification time, hence a place in the sorted lists
+		}
+		id := add(&c05.Spec{Kind: "claim", Signer: key, PN: pn, CType: "set", Attr: "i0", Val: fmt.Sprintf("s%d", i)})
+		specs[id-1].Date = int64(1000+10*id) * 1e9 // c05.Spec.Date is in unix nanoseconds
 		claims = append(claims, id)
 	}
 	for i := 0; i < 1+r.Intn(2); i++ {
 		t := pns[r.Intn(len(pns))]
-		if r.Chance(40) {
+		if i > 0 && r.Chance(40) {
 			t = claims[r.Intn(len(claims))]
 		}
+		if i == 0 {
+			firstDelTarget = t
+		}
 		id := add(&c05.Spec{Kind: "del", Signer: key, Target: t})
-		specs[id-1].Date = int64(5000 + 10*id)
+		specs[id-1].Date = int64(5000+10*id) * 1e9
 	}
-	p := depsProgram{Specs: specs, YLevel: int32(1 + r.Intn(2))}
+	p := depsProgram{Specs: specs, YLevel: int32(1 + r.Intn(2)), Queriers: 1 + r.Intn(3)}
+	if r.Chance(50) {
+		p.Late = firstDelTarget
+	}
 	nClients := 2 + r.Intn(7)
 	if r.Chance(20) {
 		nClients = 9 + r.Intn(8)
@@ -132,9 +151,15 @@ func genDepsProgram(r *hk.Rand) depsProgram {
 	if r.Chance(12) {
 		omit = 1 + r.Intn(len(specs)) // one blob never arrives: its dependents must stay parked, nothing else
 	}
+	if omit == p.Late {
+		omit = -1
+	}
 	for _, s := range specs {
 		if s.ID == omit {
 			p.Omit = append(p.Omit, s.ID)
+			continue
+		}
+		if s.ID == p.Late {
 			continue
 		}
 		c := r.Intn(nClients)
@@ -154,9 +179,10 @@ func genDepsProgram(r *hk.Rand) depsProgram {
 }
 
 type depsIndex struct {
-	ix  *index.Index
-	kv  sorted.KeyValue
-	src *test.Fetcher
+	corpus *index.Corpus
+	ix     *index.Index
+	kv     sorted.KeyValue
+	src    *test.Fetcher
 }
 
 func newDepsIndex(perturb bool, level int32) (*depsIndex, error) {
@@ -180,10 +206,11 @@ func newDepsIndex(perturb bool, level int32) (*depsIndex, error) {
 	} else {
 		ix.InitBlobSource(d.src)
 	}
-	if _, err := ix.KeepInMemory(); err != nil {
+	c, err := ix.KeepInMemory()
+	if err != nil {
 		return nil, err
 	}
-	d.ix = ix
+	d.ix, d.corpus = ix, c
 	return d, nil
 }
 
@@ -274,6 +301,9 @@ type depsResult struct {
 	Overlaps  int       `json:"overlaps"` // dependent/dependency pairs whose receives overlapped in real time
 	Inverted  int       `json:"inverted"` // pairs where the dependent was acknowledged before the dependency was
 	Descr     string    `json:"descr"`
+	Queries   int       `json:"queries"` // sorted enumerations run by the querier clients during the feed
+	Late      bool      `json:"late"`    // a deleted permanode was delivered after everything else
+	Ops       []string  `json:"ops,omitempty"`
 	BuildFail string    `json:"buildfail,omitempty"`
 }
 
@@ -287,7 +317,7 @@ func depsOf(w *c05.World, id int) []int {
 
 // runDepsProgram runs the concurrent delivery and evaluates the oracle.
 func runDepsProgram(p depsProgram, race bool) depsResult {
-	res := depsResult{Clients: len(p.Deliver), Blobs: len(p.Specs), Omitted: len(p.Omit), Race: race}
+	res := depsResult{Clients: len(p.Deliver), Blobs: len(p.Specs), Omitted: len(p.Omit), Race: race, Late: p.Late != 0}
 	w := c05.NewWorld()
 	for _, s := range p.Specs {
 		cp := *s
@@ -307,6 +337,9 @@ func runDepsProgram(p depsProgram, race bool) depsResult {
 			delivered[id] = true
 		}
 	}
+	if p.Late != 0 {
+		delivered[p.Late] = true
+	}
 	type span struct{ t0, t1 int64 }
 	var mu sync.Mutex
 	spans := map[int][]span{}
@@ -315,43 +348,79 @@ func runDepsProgram(p depsProgram, race bool) depsResult {
 	yLevel.Store(p.YLevel)
 	start := make(chan struct{})
 	var wg sync.WaitGroup
+	// the index is queried while it is fed: sorted permanode enumerations (the corpus' lazily sorted,
+	// generation-keyed caches) under the index read lock, until the index is quiescent
+	stopQ := make(chan struct{})
+	var qwg sync.WaitGroup
+	var nQueries atomic.Int64
+	for q := 0; q < p.Queriers; q++ {
+		qwg.Add(1)
+		go func(q int) {
+			defer qwg.Done()
+			<-start
+			for i := 0; ; i++ {
+				select {
+				case <-stopQ:
+					return
+				default:
+				}
+				d.sortedLists(w, (q+i)%3)
+				nQueries.Add(1)
+				if x := yrand(); x%4 == 0 {
+					time.Sleep(time.Duration(20+(x>>8)%200) * time.Microsecond)
+				} else {
+					runtime.Gosched()
+				}
+			}
+		}(q)
+	}
+	stopQueriers := func() { close(stopQ); qwg.Wait(); res.Queries = int(nQueries.Load()) }
+	deliver := func(id int) {
+		tb := w.Blob[id]
+		// the server stores a blob first and hands it to the indexer afterwards
+		d.src.AddBlob(tb)
+		t0 := stamp()
+		_, err := blobserver.Receive(ctxbg, d.ix, tb.BlobRef(), strings.NewReader(tb.Contents))
+		t1 := stamp()
+		mu.Lock()
+		spans[id] = append(spans[id], span{t0, t1})
+		if err != nil {
+			errs = append(errs, fmt.Sprintf("blob %d (%s): %v", id, w.Specs[id].Kind, err))
+		} else {
+			acked[id] = true
+		}
+		mu.Unlock()
+	}
 	for c := range p.Deliver {
 		wg.Add(1)
 		go func(c int) {
 			defer wg.Done()
 			<-start
 			for _, id := range p.Deliver[c] {
-				tb := w.Blob[id]
 				if yrand()%3 == 0 {
 					yield()
 				}
-				// the server stores a blob first and hands it to the indexer afterwards
-				d.src.AddBlob(tb)
-				t0 := stamp()
-				_, err := blobserver.Receive(ctxbg, d.ix, tb.BlobRef(), strings.NewReader(tb.Contents))
-				t1 := stamp()
-				mu.Lock()
-				spans[id] = append(spans[id], span{t0, t1})
-				if err != nil {
-					errs = append(errs, fmt.Sprintf("blob %d (%s): %v", id, w.Specs[id].Kind, err))
-				} else {
-					acked[id] = true
-				}
-				mu.Unlock()
+				deliver(id)
 			}
 		}(c)
 	}
 	close(start)
 	finished := make(chan struct{})
-	go func() { wg.Wait(); close(finished) }()
+	go func() {
+		wg.Wait()
+		if p.Late != 0 {
+			deliver(p.Late) // everything else (its delete claim included) has been acknowledged
+		}
+		close(finished)
+	}()
 	select {
 	case <-finished:
 	case <-time.After(hangAfter + 5*time.Second):
 		yLevel.Store(0)
+		close(stopQ)
 		res.Problems = append(res.Problems, problem{Sig: "call-hung:index", Detail: "Index.ReceiveBlob of a dependent-blob program did not return"})
 		return res
 	}
-	yLevel.Store(0)
 	for _, id := range w.SortedIDs() {
 		for _, dep := range depsOf(w, id) {
 			for _, a := range spans[id] {
@@ -369,7 +438,29 @@ func runDepsProgram(p depsProgram, race bool) depsResult {
 	if len(errs) > 0 {
 		res.Problems = append(res.Problems, problem{Sig: "index:receive-failed-under-concurrency", Detail: strings.Join(errs, "; ")})
 	}
-	if !d.quiesce(10 * time.Second) {
+	// the concrete input, in the order the receives were invoked
+	{
+		type ev struct {
+			t  int64
+			id int
+		}
+		var evs []ev
+		for id, l := range spans {
+			for _, sp := range l {
+				evs = append(evs, ev{sp.t0, id})
+			}
+		}
+		sort.Slice(evs, func(i, j int) bool { return evs[i].t < evs[j].t })
+		res.Ops = append(res.Ops, "store index")
+		for _, e := range evs {
+			tb := w.Blob[e.id]
+			res.Ops = append(res.Ops, fmt.Sprintf("irecv %s %s", keyHex(tb.BlobRef().String()), hk.Hex([]byte(tb.Contents))))
+		}
+	}
+	quiet := d.quiesce(10 * time.Second)
+	yLevel.Store(0)
+	stopQueriers()
+	if !quiet {
 		res.Problems = append(res.Problems, problem{Sig: "index:reindex-never-quiesces", Detail: "VerifAwaitReindex did not return within 10 s after all deliveries; " + d.pending()})
 		return res
 	}
@@ -396,6 +487,34 @@ func runDepsProgram(p depsProgram, race bool) depsResult {
 	}
 	for _, id := range w.SortedIDs() {
 		feed(id)
+	}
+	// sanity of the generated world (it is built with another property's builder): in the sequential feed
+	// every delivered claim whose signer key is there must have become a claim of its permanode
+	sq.ix.RLock()
+	for _, id := range w.SortedIDs() {
+		sp := w.Specs[id]
+		if sp.Kind != "claim" || !delivered[id] || !delivered[sp.Signer] {
+			continue
+		}
+		deletedClaim := false
+		for _, o := range w.Specs {
+			deletedClaim = deletedClaim || (o.Kind == "del" && o.Target == id)
+		}
+		if deletedClaim {
+			continue // AppendClaims skips deleted claims
+		}
+		cl, _ := sq.ix.AppendClaims(ctxbg, nil, w.Blob[sp.PN].BlobRef(), "", "")
+		found := false
+		for _, c := range cl {
+			found = found || c.BlobRef == w.Blob[id].BlobRef()
+		}
+		if !found && res.BuildFail == "" {
+			res.BuildFail = fmt.Sprintf("claim %d of permanode %d is not indexed as a claim by a sequential feed (generator out of date?)", id, sp.PN)
+		}
+	}
+	sq.ix.RUnlock()
+	if res.BuildFail != "" {
+		return res
 	}
 	name := func(s string) string { // blob refs -> "#id(kind)" for readable details
 		for ref, id := range w.IDOfRef {
@@ -471,7 +590,65 @@ func runDepsProgram(p depsProgram, race bool) depsResult {
 		res.Problems = append(res.Problems, problem{Sig: "index:corpus-differs-from-sequential-feed",
 			Detail: "corpus answers at quiescence differ from a sequential feed; " + res.Descr, Exp: osq, Obs: oc})
 	}
+	// 5. the sorted permanode enumerations (lazily sorted caches keyed by the corpus generation)
+	var lc [3]string
+	for k := 0; k < 3; k++ {
+		lc[k] = d.sortedLists(w, k)
+		if ls := sq.sortedLists(w, k); lc[k] != ls {
+			res.Problems = append(res.Problems, problem{Sig: "index:sorted-query-differs-from-sequential-feed",
+				Detail: fmt.Sprintf("%s at quiescence differs from the same enumeration of a sequential feed (%d enumerations ran during the feed); deleted per IsDeleted: %s; %s",
+					sortedNames[k], res.Queries, d.deletedPNs(w), res.Descr),
+				Exp: ls, Obs: lc[k]})
+		}
+	}
+	// 6. one more, unrelated blob must not change which of the old permanodes the sorted enumerations list
+	extra := &test.Blob{Contents: fmt.Sprintf("c14 unrelated blob %d", len(p.Specs))}
+	d.src.AddBlob(extra)
+	blobserver.Receive(ctxbg, d.ix, extra.BlobRef(), strings.NewReader(extra.Contents))
+	d.quiesce(10 * time.Second)
+	for k := 0; k < 3; k++ {
+		if after := d.sortedLists(w, k); after != lc[k] {
+			res.Problems = append(res.Problems, problem{Sig: "index:sorted-query-changes-after-unrelated-blob",
+				Detail: fmt.Sprintf("%s lists other permanodes after one unrelated blob was indexed (a stale sorted cache); %s", sortedNames[k], res.Descr),
+				Exp:    lc[k], Obs: after})
+		}
+	}
 	d.ix.Close()
 	sq.ix.Close()
 	return res
+}
+
+var sortedNames = [3]string{"Corpus.EnumeratePermanodesLastModified", "Corpus.EnumeratePermanodesCreated(newestFirst)", "Corpus.EnumeratePermanodesCreated(oldestFirst)"}
+
+// sortedLists runs one of the corpus' sorted permanode enumerations under the index read lock and
+// renders the permanodes' ids in the order sent.
+func (d *depsIndex) sortedLists(w *c05.World, which int) string {
+	d.ix.RLock()
+	defer d.ix.RUnlock()
+	var ids []string
+	fn := func(m camtypes.BlobMeta) bool {
+		ids = append(ids, fmt.Sprintf("#%d", w.IDOfRef[m.Ref.String()]))
+		return true
+	}
+	switch which {
+	case 0:
+		d.corpus.EnumeratePermanodesLastModified(fn)
+	case 1:
+		d.corpus.EnumeratePermanodesCreated(fn, true)
+	default:
+		d.corpus.EnumeratePermanodesCreated(fn, false)
+	}
+	return "[" + strings.Join(ids, " ") + "]"
+}
+
+func (d *depsIndex) deletedPNs(w *c05.World) string {
+	d.ix.RLock()
+	defer d.ix.RUnlock()
+	var out []string
+	for _, id := range w.SortedIDs() {
+		if w.Specs[id].Kind == "pn" && d.ix.IsDeleted(w.Blob[id].BlobRef()) {
+			out = append(out, fmt.Sprintf("#%d", id))
+		}
+	}
+	return "[" + strings.Join(out, " ") + "]"
 }
